@@ -550,6 +550,80 @@ def oversized_head_only(ctx):
                           % (declared, limit, res["status_line"]), case)
 
 
+class CountingInput:
+    """a request body stream with the read semantics of the socket file the built-in server hands to the application
+    (`BufferedReader.read`: n = -1 or None reads to the end, n < -1 is a ValueError) that counts what is taken from it"""
+
+    def __init__(self, data):
+        import io
+        self.raw = io.BytesIO(data)
+        self.taken = 0
+
+    def read(self, n=-1):
+        if n is not None and n < -1:
+            raise ValueError("read length must be non-negative or -1")
+        b = self.raw.read(None if n in (None, -1) else n)
+        self.taken += len(b)
+        return b
+
+    def readline(self, *a):
+        b = self.raw.readline(*a)
+        self.taken += len(b)
+        return b
+
+
+def content_length_header_level(ctx):
+    """the raw text of the Content-Length header (negative, signed, padded, with underscores, not a number, empty, smaller or larger than
+    what follows) x limits x body-reading methods, in process with the built-in server's switch on: however the header reads, the
+    application takes in at most max_content_length bytes of the body; against RadicaleModel/ContentLength.lean"""
+    import io
+    import wsgiref.util
+    from common import App
+    rng = ctx.rng("clheader")
+    event = ("BEGIN:VCALENDAR\r\nVERSION:2.0\r\nPRODID:x\r\nBEGIN:VEVENT\r\nUID:cl\r\nDTSTAMP:20240101T000000Z\r\nDTSTART:20240102T100000Z\r\n"
+             "DESCRIPTION:%s\r\nEND:VEVENT\r\nEND:VCALENDAR\r\n")
+    propfind = '<?xml version="1.0"?><D:propfind xmlns:D="DAV:"><D:prop><D:getetag/></D:prop></D:propfind><!-- %s -->'
+    for i in range(ctx.n(160, 3000)):
+        internal = rng.random() < 0.85
+        limit = rng.choice([0, 200, 1000, 100000])
+        pad = rng.choice([0, 50, 500, 5000, 250000])
+        method = rng.choice(["PUT", "PUT", "PROPFIND", "REPORT", "MKCALENDAR", "PROPPATCH", "MKCOL"])
+        body = ((event % ("x" * pad)) if method == "PUT" else (propfind % ("x" * pad))).encode()
+        n = len(body)
+        raw = rng.choice([str(n), str(n), str(n - 1), str(n + 1), "-1", "-1", "-2", "-%d" % n, "-0", "+%d" % n, " %d " % n, "%d_0" % (n // 10), "1__0", "_1",
+                          "0x10", "", " ", "abc", "1e3", "12.0", "0", "00%d" % n, str(limit), str(limit + 1), "9" * 30, "-" + "9" * 30, "\t-1\n"])
+        with App({"auth": {"type": "none"}, "rights": {"type": "authenticated"},
+                  "server": {"max_content_length": str(limit), "_internal_server": str(internal)}}) as app:
+            app.request("MKCALENDAR", "/u/c/", login="u:p")
+            inp = CountingInput(body)
+            environ = {"REQUEST_METHOD": method, "PATH_INFO": "/u/c/cl.ics" if method == "PUT" else ("/u/new%d/" % i if method.startswith("MK") else "/u/c/"),
+                       "wsgi.input": inp, "wsgi.errors": io.StringIO(), "HTTP_AUTHORIZATION": "Basic dTpw", "HTTP_DEPTH": "0",
+                       "CONTENT_TYPE": "text/calendar" if method == "PUT" else "text/xml"}
+            if raw is not None:
+                environ["CONTENT_LENGTH"] = raw
+            wsgiref.util.setup_testing_defaults(environ)
+            res = {}
+            try:
+                list(app.application(environ, lambda st_, hd_: res.update(status=int(st_.split()[0]))))
+            except Exception as e:
+                res["status"] = 599
+                res["exc"] = repr(e)
+            st = res.get("status")
+        case = {"method": method, "internal_server": internal, "max_content_length": limit, "content_length_header": raw, "body_bytes_sent": n,
+                "status": st, "body_bytes_taken_in": inp.taken}
+        ctx.case("clheader:%s" % ("413" if st == 413 else "500" if st == 500 else "neg" if raw.strip().startswith("-") else "other"), sample=case,
+                 key=["clheader", i], nontrivial=inp.taken > 0 or st in (413, 500))
+        if internal and limit > 0 and inp.taken > limit:
+            ctx.violation("with Content-Length %r the application took in %d body bytes, max_content_length is %d (status %s)"
+                          % (raw, inp.taken, limit, st), case, "<= %d" % limit, inp.taken, finding=None)
+        if ctx.driver:
+            a = ctx.driver.ask1({"m": "server", "op": "cl", "fixed": True, "internal": internal, "max_len": limit, "raw": [ord(c) for c in raw], "avail": n})
+            got = {"status": "413" if st == 413 else "500" if st == 500 else "other", "taken": inp.taken}
+            mod = {"status": a["outcome"] if a["outcome"] in ("413", "500") else "other", "taken": a["taken"]}
+            if got != mod:
+                ctx.disagree("raw Content-Length header: status class and bytes taken in vs model ContentLength.handle", case, got, mod)
+
+
 def run(ctx):
     ctx.extra["rule"] = ("(a) environment schedules of 1-40 events (arrive / finish / loop / signal) x max_connections in {0,1,2,3,5} driving the "
                          "real serve() loop through scripted select/server/socket stand-ins; (b) Content-Length gate; (c) real sockets with a "
@@ -562,3 +636,4 @@ def run(ctx):
     real_sockets(ctx)
     silent_clients(ctx)
     oversized_head_only(ctx)
+    content_length_header_level(ctx)
